@@ -79,7 +79,8 @@ def simpleRegex (pat subj : String) : Option Bool :=
   let (anchE, cs) := match cs.reverse with
     | '$' :: rest => (true, rest.reverse)
     | _ => (false, cs)
-  if cs.all (fun c => c.isAlphanum || c == ' ') then
+  -- literal characters: anything that is not a regexp metacharacter (and ASCII, so that bytes = runes)
+  if cs.all (fun c => c.toNat < 128 && !("\\.+*?()|[]{}^$".toList.contains c)) then
     let lit := String.ofList cs
     some (match anchS, anchE with
       | true, true => subj == lit
